@@ -29,6 +29,14 @@ CHECKS = {
    text="PathFS.tla models a directory tree with file / directory / absolute / relative / dangling / cyclic links, lexical cleaning, link-expanding resolution, and what the RootDir library and the fs.FS library may answer. TLC enumerates every location string up to the component bound x 6 prefixes x 3 loading contexts x 2 root spellings, one state per case, checking NoEscape, and prints the served cases. The harness builds the same tree on the real file system and runs the same case space through LoadSource, (load-file ...) written in a loading file, and LoadFile; whatever the code serves must be served by the specification with the same content (so a relative location resolved against the wrong directory is caught as well as an escape).",
    note="Exhaustive over locations of <= 3 components (4 thorough) of a 19-name alphabet on one rich layout (links to files and directories inside and outside, to the root's parent, a sibling sharing the root's prefix, root itself given through a link). Refusing is always allowed by the property; refusals of servable locations are counted in the evidence, not reported. os.DirFS follows links by documented design, so link layouts are exercised only against the RootDir library.",
    technique="TLA+ model checking with TLC (exhaustive case enumeration); spec predictions replayed on a real directory tree", ref="DESIGN.md 6 C20"),
+ "C09": dict(engine="Shared",
+   text="Shared.tla models R runtimes over one Program region with scripts of the operations by which a program literal reaches a mutating builtin (sort, cdr/rest + sort, slice 'vector + append!, zero-value append + sort, macro argument, private definitions, reload); TLC checks ProgramFrozen, NoLaunder and Isolation in every state of every interleaving (exhaustive for 2 runtimes x scripts of 2; simulation for 3 x 3) and prints the behaviours. The harness parses the program once, shares the expression slice between real runtimes on separate goroutines, imposes TLC's schedule with one gate per operation and compares the structural fingerprint before/after, every result with the specification's and with a solo run against a fresh parse, and the literal re-evaluated afterwards. The same scripts run free (8 goroutines, repeated loads) under the Go race detector.",
+   note="Trusted: lisp.SealedASTFingerprint (the repository's own structural digest), the Go race detector. The gated replay serialises operations, so data races can only be exhibited by the free-running runs (12 quick / 60 thorough). The checked build (-tags elpscheck) is not used.",
+   technique="TLA+ model checking with TLC (all interleavings); spec schedules imposed on real goroutines; race detector", ref="DESIGN.md 6 C09"),
+ "C11": dict(engine="Heap",
+   text="Heap.tla transcribes 24 container operations (constructors, views, non-mutating builders, mutators, sorted maps keyed by name) over backing arrays, windows (offset, length, capacity, sealed) and element references. TLC checks exhaustively over all 2-operation histories the action property NonMut (a non-mutating operation leaves the rendering of every pre-existing variable unchanged) and the invariants ProgramFrozen, NoLaunder, WellFormed, NoSpareOnViews; every history ending in a mutator (all alias x mutator pairs, ~21k) and seeded simulated histories of 5-6 operations are replayed on the real interpreter with every variable re-printed after every step and compared with the specification's rendering.",
+   note="Not in the operation alphabet: byte strings (append-bytes), zip, insert-sorted, multi-dimensional arrays. Capacity growth of an owning vector is not observable (views are clamped) and is modelled only up to that.",
+   technique="TLA+ model checking with TLC (exhaustive pairs + simulation); spec histories replayed on the code", ref="DESIGN.md 6 C11"),
 }
 
 NA_REASON = "check under construction (see DESIGN.md section 6); not yet claimed"
